@@ -8,10 +8,11 @@ import (
 
 // typeCtx is the pool of declared types a project's routes may use.
 type typeCtx struct {
-	structs  []TypeRef // usable as body / result
-	enums    []TypeRef
-	aliases  []TypeRef
-	errTypes []TypeRef // structs embedding error
+	noNamedInMaps bool
+	structs       []TypeRef // usable as body / result
+	enums         []TypeRef
+	aliases       []TypeRef
+	errTypes      []TypeRef // structs embedding error
 }
 
 func (c *typeCtx) bodyType(t *rapid.T) TypeRef {
@@ -20,7 +21,10 @@ func (c *typeCtx) bodyType(t *rapid.T) TypeRef {
 	case 0:
 		return Slice(s)
 	case 1:
-		return MapOf(s)
+		if !c.noNamedInMaps {
+			return MapOf(s)
+		}
+		ExcludedNamedInMaps++
 	}
 	return s
 }
@@ -60,7 +64,12 @@ func (c *typeCtx) anyType(t *rapid.T, depth int) TypeRef {
 		case "slice":
 			return Slice(c.anyType(t, depth-1))
 		case "map":
-			return MapOf(c.anyType(t, depth-1))
+			inner := c.anyType(t, depth-1)
+			if c.noNamedInMaps && inner.Base().Kind == "named" {
+				ExcludedNamedInMaps++
+				inner = Prim("int")
+			}
+			return MapOf(inner)
 		case "ptr":
 			inner := c.anyType(t, 0)
 			return Ptr(inner)
@@ -68,6 +77,9 @@ func (c *typeCtx) anyType(t *rapid.T, depth int) TypeRef {
 		kinds = []string{"prim"}
 	}
 }
+
+// ExcludedNamedInMaps counts shapes re-drawn because of finding F-C09-2 (evidence only).
+var ExcludedNamedInMaps int
 
 var enumBases = []string{"string", "int", "int32", "uint8", "float64"}
 
@@ -86,7 +98,7 @@ func enumLiteral(base string, i int) string {
 // By-value struct references only point to earlier declarations (Go forbids value cycles);
 // pointer/slice/map references may point anywhere, including the struct itself.
 func genTypes(t *rapid.T, p *Project, pf Profile) *typeCtx {
-	ctx := &typeCtx{}
+	ctx := &typeCtx{noNamedInMaps: pf.NoNamedInMaps}
 	pkgs := pf.TypePackages
 	if len(pkgs) == 0 {
 		pkgs = []string{"models"}
@@ -133,18 +145,23 @@ func genTypes(t *rapid.T, p *Project, pf Profile) *typeCtx {
 		for f := 0; f < nf; f++ {
 			fl := Field{Name: fmt.Sprintf("%s%d", rapid.SampledFrom([]string{"Name", "Count", "Tags", "Owner", "When", "Extra"}).Draw(t, "fieldName"), f)}
 			fl.Type = genFieldType(t, ctx, names, spkgs, i, 2)
+			if pf.FlatStructs {
+				fl.Type = rapid.SampledFrom([]TypeRef{Prim("string"), Prim("int"), Prim("int32"), Prim("uint8"), Prim("bool"), Prim("float64"), Slice(Prim("string"))}).Draw(t, "flatType")
+			}
 			switch rapid.IntRange(0, 4).Draw(t, "jsonTag") {
 			case 0:
 				fl.JSON = fmt.Sprintf("%s_%d", rapid.SampledFrom([]string{"name", "count", "tags", "owner"}).Draw(t, "jsonName"), f)
 			case 1:
 				fl.JSON = fmt.Sprintf("f%d,omitempty", f)
 			}
-			fl.Validate = genValidator(t, pf, fl.Type)
+			if !pf.FlatStructs {
+				fl.Validate = genValidator(t, pf, fl.Type)
+			}
 			fl.Desc = genDesc(t, "fieldDesc")
 			d.Fields = append(d.Fields, fl)
 		}
 		// embedding an earlier struct
-		if i > 0 && rapid.IntRange(0, 4).Draw(t, "embed") == 0 {
+		if !pf.FlatStructs && i > 0 && rapid.IntRange(0, 4).Draw(t, "embed") == 0 {
 			j := rapid.IntRange(0, i-1).Draw(t, "embedWhich")
 			if canRef(spkgs[i], spkgs[j]) {
 				d.Fields = append(d.Fields, Field{Name: names[j], Type: Named(spkgs[j], names[j]), Embedded: true})
